@@ -585,7 +585,7 @@ def one_cycle(res, lab, rng, shape, n):
         got = []
         real_stderr, sys.stderr = sys.stderr, io.StringIO()
         try:
-            if n % 2:
+            if n % 3 == 1:
                 lc, rc = lab.pair_newchannel_local()
                 lc.setcallback(got.append, endmarker="end")
                 del lc
@@ -594,6 +594,12 @@ def one_cycle(res, lab, rng, shape, n):
                 pairs.wait_until(lambda: n in got, 15.0)
                 rc.close("the sender gives up")
                 rc.waitclose(10)
+            elif n % 3 == 2:
+                # the body ends *because* its receive() saw the listener's end go away (EOFError, not caught)
+                ch = gw.remote_exec("channel.send(%d)\nchannel.receive()" % n)
+                ch.setcallback(got.append, endmarker="end")
+                del ch
+                gc.collect()
             else:
                 ch = gw.remote_exec("channel.send(%d)\ntry:\n    channel.receive()\nexcept EOFError:\n    pass\nraise ValueError('body fails after the listener dropped its end')" % n)
                 ch.setcallback(got.append, endmarker="end")
@@ -749,7 +755,9 @@ def run_real(spec):
         base_status = gw.remote_status().numchannels
         counts = {}
         for n in range(spec["n"]):
-            shape = rng.choice(("end_of_exec", "exec_error", "callback", "callback_drop", "remote_status", "sub_close", "sub_drop", "transfer"))
+            if res.enough(2):
+                break
+            shape = rng.choice(("end_of_exec", "exec_error", "callback", "callback_drop", "remote_status", "sub_close", "sub_drop", "transfer", "callback_drop_body_eof"))
             counts[shape] = counts.get(shape, 0) + 1
             if shape == "end_of_exec":
                 ch = gw.remote_exec("channel.send(channel.receive())")
@@ -774,6 +782,19 @@ def run_real(spec):
                     time.sleep(0.001)
                 if got != [0, 1, 2, "end"]:
                     res.violation(f"real-callback-transcript-wrong:{shape}:{spec['spec']}", repr(got))
+            elif shape == "callback_drop_body_eof":
+                # the listener keeps only its callback; the body ends because its receive() sees that (EOFError, not caught):
+                # the conversation is over on both sides at once, not when the worker happens to run something else
+                got = []
+                ch = gw.remote_exec("channel.send(%d)\nchannel.receive()" % n)
+                ch.setcallback(got.append, endmarker="end")
+                del ch
+                gc.collect()
+                t0 = time.monotonic()
+                while "end" not in got and time.monotonic() - t0 < 15:
+                    time.sleep(0.001)
+                if got != [n, "end"]:
+                    res.violation(f"endmarker-withheld-after-body-ended-with-eoferror:{spec['spec']}", f"cycle {n}: callback saw {got!r} 15 s after the listener dropped its end")
             elif shape == "remote_status":
                 gw.remote_status()
             elif shape in ("sub_close", "sub_drop"):
